@@ -12,6 +12,7 @@ def parseEv (op : String) : Option Ev :=
   | ["chg"] => some .chg
   | ["sig", n] => some (.sig n.toNat!)
   | ["mix", n] => some (.mix n.toNat!)
+  | ["eof"] => some .eof
   | ["y"] => some .settle
   | ["a", ms] => some (.advance ms.toNat!)
   | _ => none
@@ -38,6 +39,13 @@ def parseCfg (flags : List String) : Cfg :=
     | ["--signal", s] => { cfg with signal := sigOf s, mode := .signal }   -- `--signal` alone implies on-busy-update=signal (normalise)
     | ["--stop-signal", s] => { cfg with stopSignal := sigOf s }
     | ["--stop-timeout", d] => { cfg with stopTimeout := durMs d }
+    | ["--stdin-quit"] => { cfg with stdinQuit := true }
+    | ["--map-signal", m] =>      -- FROM:TO, TO empty = discard
+      (match m.splitOn ":" with
+       | [a, b] => (match sigOf a with
+          | some f => { cfg with sigMap := cfg.sigMap ++ [(f, if b.isEmpty then none else sigOf b)] }
+          | none => cfg)
+       | _ => cfg)
     | _ => cfg) {}
 
 def parseBeh (s : String) : Option Beh :=
